@@ -9,11 +9,13 @@ from ._layouts import translate  # noqa: F401  (T1)
 MODULES = ["Iodata.Props.C15"]
 RULE = (
     "same object generators as C02 (sizes around every width boundary, all elements, magnitude classes, titles, bonds, "
-    "optional attributes). dump/load/dump-gen2:<fmt>: model and implementation in lock step through two generations "
-    "(bytes of generation 1 and 2, re-quantised reload). cycles:<fmt>: three save/reload cycles on the real code from "
-    "unquantised random objects; reload 2 must be bit-identical to reload 1 (every IOData attribute, array bytes), the "
-    "files of generation 2 and 3 byte-identical. corpus:<file>-><fmt>: every file of iodata/test/data that loads, written "
-    "to every format that accepts it, three cycles. non-trivial = distinct request / distinct (file, format) pair"
+    "optional attributes; Cube shapes with every row%6, FCHK objects with every optional section). dump/load/dump-gen2:<fmt> "
+    "(xyz, sdf, pdb incl. multi-line TITLE/COMPND, mol2, cube, fchk): model and implementation in lock step through two generations (bytes of generation 1 and "
+    "2, re-quantised reload). cycles:<fmt> (those five and mol2, fcidump, poscar): three save/reload cycles on the real code "
+    "from unquantised random objects; reload 2 must be bit-identical to reload 1 (every IOData attribute, array bytes), the "
+    "files of generation 2 and 3 byte-identical; PDB objects with 2..101-line titles and compounds are always among them. "
+    "corpus:<file>-><fmt>: (2bcw.pdb with its 14-line COMPND always included) every file of iodata/test/data that loads, written to "
+    "every format that accepts it, three cycles. non-trivial = distinct request / distinct (file, format) pair"
 )
 TRUSTED = [
     "harness/vh/props/_layouts.py, _adapters.py, lean/Iodata/Drv/Fmt.lean as for C02",
@@ -29,8 +31,17 @@ RW = ["xyz", "sdf", "pdb"]
 
 
 def correspond(ctx):
+    from . import _fchk
+
     for k in RW:
-        K.corr_roundtrip(ctx, ADAPTERS[k], ctx.n(25, 250), generations=2)
+        K.corr_roundtrip(ctx, ADAPTERS[k], ctx.n(160, 800), generations=2)
+    _fchk.corr_objects(ctx, ctx.n(200, 1000), generations=2)
+    from ._cube import CUBE
+    from ._mol2 import MOL2
+
+    K.corr_roundtrip(ctx, MOL2, ctx.n(160, 800), generations=2)
+
+    K.corr_roundtrip(ctx, CUBE, ctx.n(200, 1000), generations=2)
 
 
 def search(ctx):
@@ -38,9 +49,12 @@ def search(ctx):
     from ._adapters2 import SEARCH_ONLY
 
     for k, ad in SEARCH_ONLY.items():
-        K.search_c15(ctx, ad, ctx.n(30, 400) * mult)
+        K.search_c15(ctx, ad, ctx.n(150, 800) * mult)
     for k in RW:
-        K.search_c15(ctx, ADAPTERS[k], ctx.n(30, 400) * mult)
+        K.search_c15(ctx, ADAPTERS[k], ctx.n(150, 800) * mult)
+    from ._fchk import FCHK_FREE
+
+    K.search_c15(ctx, FCHK_FREE, ctx.n(150, 800) * mult)
     K.corpus_cycles(ctx)
 
 
